@@ -134,7 +134,7 @@ class _Tok(str):
     """an opaque parameter value: stands for every value the user may pass"""
 
 
-ASPECTS = {"names": ("sample_name", "feature_name"), "solver": ("solver", "random_state", "solver_kwargs", "compute"),
+ASPECTS = {"names": ("sample_name", "feature_name"), "solver": ("solver", "random_state", "solver_kwargs", "compute"), "deferral": ("compute",),
            "preprocessing": ("n_modes", "center", "standardize", "use_coslat", "check_nans")}
 
 
@@ -147,7 +147,7 @@ def deductive_inner_models(res, agg, aspects=("names", "solver", "preprocessing"
     import xeofs.validation.bootstrapper as bsmod
     rng = np.random.default_rng(0)
     X2 = xr.DataArray(rng.standard_normal((12, 5)), dims=("obs", "cell"), coords={"obs": np.arange(12), "cell": np.arange(5)})
-    tok = {k: _Tok(f"<{k}>") for k in ("solver", "random_state")}
+    tok = {k: _Tok(f"<{k}>") for k in ("solver", "random_state", "compute", "standardize", "use_coslat")}
     skw = {"tok": object()}
 
     class Stop(Exception):
@@ -188,13 +188,16 @@ def deductive_inner_models(res, agg, aspects=("names", "solver", "preprocessing"
 
     # ExtendedEOF: inner pre-PCA and inner decomposition
     cs = run(eeofmod, lambda: xeofs.single.ExtendedEOF(n_modes=3, tau=1, embedding=2, n_pca_modes=4, sample_name="obs", feature_name="cell",
-                                                      solver=tok["solver"], random_state=tok["random_state"], solver_kwargs=skw, compute=True),
+                                                      solver=tok["solver"], random_state=tok["random_state"], solver_kwargs=skw, compute=tok["compute"],
+                                                      standardize=tok["standardize"], use_coslat=tok["use_coslat"]),
              lambda m: eeofmod.ExtendedEOF._fit_algorithm(m, X2))
     ctor = [c_ for c_ in cs if "__fit_dim__" not in c_ and "__error__" not in c_]
     if ctor:
-        expect("ExtendedEOF.__init__ (pre-PCA)", ctor[0], dict(n_modes=4, center=True, standardize=False, sample_name="obs", feature_name="cell", solver_kwargs=skw))
+        expect("ExtendedEOF.__init__ (pre-PCA)", ctor[0], dict(n_modes=4, center=True, standardize=False, use_coslat=False, sample_name="obs", feature_name="cell", solver_kwargs=skw,
+                                                               compute=tok["compute"]))
     cs = run(eeofmod, lambda: xeofs.single.ExtendedEOF(n_modes=3, tau=1, embedding=2, sample_name="obs", feature_name="cell",
-                                                      solver=tok["solver"], random_state=tok["random_state"], solver_kwargs=skw, compute=True),
+                                                      solver=tok["solver"], random_state=tok["random_state"], solver_kwargs=skw, compute=tok["compute"],
+                                                      standardize=tok["standardize"], use_coslat=tok["use_coslat"]),
              lambda m: eeofmod.ExtendedEOF._fit_algorithm(m, X2))
     ctor = [c_ for c_ in cs if "__fit_dim__" not in c_ and "__error__" not in c_]
     fits = [c_ for c_ in cs if "__fit_dim__" in c_]
@@ -203,18 +206,18 @@ def deductive_inner_models(res, agg, aspects=("names", "solver", "preprocessing"
         agg.vc("ExtendedEOF._fit_algorithm", "reaches the inner EOF fit with custom dimension names", struct_vc(bool(ctor) and bool(fits) and not errs, str(errs)[:200]), "")
     if ctor:
         expect("ExtendedEOF._fit_algorithm", ctor[-1], dict(n_modes=3, center=True, standardize=False, use_coslat=False, sample_name="obs", feature_name="cell",
-                                                            solver=tok["solver"], solver_kwargs=skw, check_nans=False))
+                                                            solver=tok["solver"], solver_kwargs=skw, check_nans=False, compute=tok["compute"]))
     if fits and "names" in aspects and "ExtendedEOF" in models:
         agg.vc("ExtendedEOF._fit_algorithm", "the delay-embedded matrix is fitted along the model's sample dimension",
                struct_vc(fits[-1]["__fit_dim__"] == "obs" and "embedding" in fits[-1]["__dims__"], str(fits[-1])), "")
     # OPA: inner pre-PCA
     cs = run(opamod, lambda: xeofs.single.OPA(n_modes=2, tau_max=2, n_pca_modes=4, sample_name="obs", feature_name="cell", solver=tok["solver"],
-                                             random_state=tok["random_state"], solver_kwargs=skw, compute=True),
+                                             random_state=tok["random_state"], solver_kwargs=skw, compute=tok["compute"]),
              lambda m: opamod.OPA._fit_algorithm(m, X2))
     ctor = [c_ for c_ in cs if "__fit_dim__" not in c_ and "__error__" not in c_]
     if ctor:
         expect("OPA._fit_algorithm", ctor[0], dict(n_modes=4, standardize=False, use_coslat=False, sample_name="obs", feature_name="cell", solver=tok["solver"],
-                                                   random_state=tok["random_state"], solver_kwargs=skw, check_nans=False, compute=True))
+                                                   random_state=tok["random_state"], solver_kwargs=skw, check_nans=False, compute=tok["compute"]))
         if "preprocessing" in aspects and "OPA" in models:
             agg.vc("OPA._fit_algorithm", "the pre-PCA is centred (default or explicit center=True)", struct_vc(ctor[0].get("center", True) is True, str(ctor[0].get("center"))), "")
     elif "OPA" in models:
